@@ -90,7 +90,10 @@ func (ll *Loader) Load(path string) ([]byte, error) {
 		return nil, errors.WrapPrefixf(err, "invalid file reference")
 	}
 	if !loader.IsRemoteFile(path) && ll.local {
-		cleanPath := cleanedRelativePath(ll.fSys, filesys.ConfirmedDir(ll.Root()), path)
+		cleanPath, err := cleanedRelativePathOrError(ll.fSys, filesys.ConfirmedDir(ll.Root()), path)
+		if err != nil {
+			return nil, errors.WrapPrefixf(err, "invalid file reference")
+		}
 		cleanAbs := filepath.Join(ll.Root(), cleanPath)
 		dir := filesys.ConfirmedDir(filepath.Dir(cleanAbs))
 		// target cannot reference newDir, as this load would've failed prior to localize;
